@@ -85,6 +85,10 @@ func (fc *fnCtx) mapHeaps(m *types.Map) (dom, val string) {
 
 func (fc *fnCtx) declHeap(name, sort string) {
 	if _, ok := fc.heapSort[name]; !ok {
+		if fc.preHeaps {
+			// a heap that pass 1 did not see (should not happen): still sound, merges may lose precision
+			fc.note("heap %s first seen in pass 2", name)
+		}
 		fc.heapSort[name] = sort
 		fc.heapOrder = append(fc.heapOrder, name)
 	}
